@@ -11,7 +11,7 @@ COMMON_ASSUMPTIONS = [
 ]
 
 UNTIMED = ["RPRS", "RRS", "RPRFS"]
-TIMED = ["BUF_FIFO", "BUF_LIFO", "RPRFS_TD", "FLEET"]
+TIMED = ["BUF_FIFO", "BUF_LIFO", "RPRFS_TD", "FLEET", "FLEET0"]
 BELTS = ["SBELT_ACC", "CBELT_ACC", "CBELT_NOACC"]
 
 
@@ -27,14 +27,19 @@ def _jobs_store_family(oracles, family_untimed, family_timed, tier, stores_untim
     jobs = []
     q = tier == "quick"
     for s in stores_untimed:
-        n = (2 if s == "RPRFS" else 3) if q else (3 if s == "RPRFS" else 4)
+        if s == "RPRFS" and q:
+            # the filter store multiplies every shape by filter / key choices: two small exhaustive shapes instead of one cut-off large one
+            jobs.append(m1(s, family_untimed, 2, 1, oracles, 12, R2=1, RMAX=2, S=1))
+            jobs.append(m1(s, family_untimed, 2, 2, oracles, 12, R2=0, RMAX=2, S=1, USE=False, name=f"M1/RPRFS/{family_untimed}/N2K2-r0"))
+            continue
+        n = 3 if q else (3 if s == "RPRFS" else 4)
         jobs.append(m1(s, family_untimed, n, 2 if q else 3, oracles, 12 if q else 60))
     for s in stores_timed:
         if q:
-            jobs.append(m1(s, family_timed, 2, 1, oracles, 12, R2=1, USE=False))
-            if s.startswith("BUF"):
-                jobs.append(m1(s, family_timed, 3, 1, oracles, 12, R2=1, USE=False, TR=False))
-                jobs.append(m1(s, family_timed, 3, 0, oracles, 12, R2=2, USE=True, TR=False, name=f"M1/{s}/{family_timed}/N3K0-use"))
+            jobs.append(m1(s, family_timed, 2, 1, oracles, 20, R2=1, USE=False, S=1))
+            if s.startswith("BUF") and family_timed != "space":
+                jobs.append(m1(s, family_timed, 3, 1, oracles, 14, R2=1, USE=False, TR=False, S=1, RMAX=3 if family_timed == "both" else 9))
+                jobs.append(m1(s, family_timed, 3, 0, oracles, 14, R2=2, USE=True, TR=False, S=0, name=f"M1/{s}/{family_timed}/N3K0-use"))
         else:
             jobs.append(m1(s, family_timed, 2, 2, oracles, 75, R2=1, USE=True))
             jobs.append(m1(s, family_timed, 3, 1, oracles, 75, R2=1, USE=True, TR=False))
@@ -91,8 +96,8 @@ PROPS["C04"] = {
                    "stores) no space request is pending while ledger occupancy + granted-unused space reservations < capacity, and no retrieval request is "
                    "pending while an available, unbound item exists (availability from the harness's own put time + delay).",
     "jobs": lambda tier: _jobs_store_family(("C04",), "both", "both", tier) + [
-        m1(s, "arrivals", 2 if tier == "quick" else 3, (0 if s == "FLEET" else 1) if tier == "quick" else 2, ("C04",), 12 if tier == "quick" else 60)
-        for s in ("RPRS", "RPRFS", "BUF_FIFO", "BUF_LIFO", "RPRFS_TD", "FLEET")],
+        m1(s, "arrivals", 2 if tier == "quick" else 3, 1 if tier == "quick" else 2, ("C04",), 12 if tier == "quick" else 60)
+        for s in ("RPRS", "RPRFS", "BUF_FIFO", "BUF_LIFO", "RPRFS_TD", "FLEET", "FLEET0")],
     "required_witnesses": ["C04:pending-put-checked", "C04:pending-get-checked"],
     "nontrivial_witnesses": ["complete"],
     "twin": twin_m1("BUF_FIFO", "both"),
